@@ -120,7 +120,7 @@ def prep(ck, prop_file, bins):
     ok, log = build_harness(list(bins))
     if not ok:
         ck.tie_broken.append("harness does not build: " + "\n".join(log.strip().splitlines()[-15:]))
-    ck.trusted = ["Coq 8.16.1 kernel", "lib/gen_parse.py (reads the emitted token text back into struct/enum definitions)",
+    ck.trusted = ["Coq 8.16.1 kernel", "lib/gen_parse.py (reads the emitted token text back into struct/enum definitions)", "tr/genfront.py (how the two build-script helpers open their output file)",
                   "extraction + ml/driver.ml; harness/src/bin/h_gen.rs; rustc/cargo (the judgement 'compiles')",
                   "modelled not verified: the traversal order and naming scheme of varlink_to_rust, serde-derive semantics"]
     return model_ok, ok
